@@ -282,8 +282,8 @@ type c17World struct {
 	lockTouched bool // the Lock's packages were changed by one of the reconciler's own writes
 	prePkg      *string
 	preLock     *unstructured.Unstructured
-	lockStale   bool // a write of the Lock was answered Conflict: the reconciler knows the Lock it read is outdated
-	staleWrite  bool // ... and a package write landed afterwards
+	lockStale   bool               // a write of the Lock was answered Conflict: the reconciler knows the Lock it read is outdated
+	staleWrite  bool               // ... and a package write landed afterwards
 	shadowed    string             // a Create answered AlreadyExists while the object holding the name is not a package of the dependency's repository
 	takenKey    string             // Kind/name of that Create
 	takenWant   string             // the image it wanted
